@@ -11,6 +11,8 @@ fn main() {
     mcx::engine::main(|prop, tier| match prop {
         "C09" => Some(c09(tier)),
         "C10" => Some(c10::def(tier)),
+        // the same exploration at a size an interpreter (Miri) can finish
+        "C10M" => Some(c10::def_small()),
         _ => None,
     })
 }
